@@ -1,30 +1,51 @@
 package c14
 
-// Property "race": the background store check (checkStores) runs concurrently with an
-// administrator's UpStore of one of the stores it is about to bury. Both are atomic
-// under the cluster lock, so whatever the order the outcome must be one of
-//   UpStore ok    and the store is Up        (the check then must not bury an up store)
-//   UpStore error and the store is Tombstone (buried first; tombstone is absorbing)
-// The check is parked at its first store-record write so that UpStore is queued on the
-// cluster lock while other stores are still to be buried. Which order happens is up to
-// the Go scheduler; the oracle only states facts that hold for both orders.
+// Property "race": operations on ONE store run concurrently; every one of them is atomic
+// under the cluster lock, so whatever the interleaving, afterwards
+//   - every completed operation returned what it returns in SOME serial order of them, and
+//   - the served stores are what that serial order gives (Tombstone is absorbing, a
+//     physically-destroyed declaration stays, weights / labels of the last writer), and
+//   - served == stored == model, as in the lifecycle property.
+// The oracle enumerates the serial orders; it never depends on which interleaving the Go
+// scheduler actually produced.
+//
+// mode "park": the background store check is parked at its first store-record write (storage
+// gate) while UpStore of a burial candidate queues on the cluster lock.
+// mode "lock": the harness holds the cluster lock while the participants queue on it in a
+// generated order, then releases it. Participants: the store check, RemoveStore (with /
+// without physically-destroyed), UpStore, SetStoreWeight, UpdateStoreLabels — 1 or 2 of them —
+// and a store heartbeat of the same store (persisting: first heartbeat since the record was
+// loaded / more than 5 minutes after the last persist; or not persisting).
 
 import (
 	"fmt"
+	"sort"
+	"strings"
 	"time"
 
 	"github.com/pingcap/kvproto/pkg/metapb"
+	"github.com/pingcap/kvproto/pkg/pdpb"
+	"github.com/tikv/pd/server/core"
 	"pdverif/vkit"
 	"pgregory.net/rapid"
 )
 
 type RaceCase struct {
-	Stores    int   `json:"stores"`    // 3..8 stores, all removed (offline) before the race
-	Target    int   `json:"target"`    // the store the administrator brings up again
-	Regions   []int `json:"regions"`   // stores that still hold a region peer (never the target)
-	Destroyed []int `json:"destroyed"` // stores removed as physically destroyed (never the target)
-	StayUp    []int `json:"stayUp"`    // stores that are not removed at all (never the target)
+	Mode      string `json:"mode,omitempty"` // "" = park | lock
+	Stores    int    `json:"stores"`         // 3..8 stores
+	Target    int    `json:"target"`         // the store the racing operations address
+	Regions   []int  `json:"regions"`        // stores that still hold a region peer (not the target)
+	Destroyed []int  `json:"destroyed"`      // stores removed as physically destroyed (not the target)
+	StayUp    []int  `json:"stayUp"`         // stores that are not removed at all (not the target)
+	// lock mode
+	TargetState  string   `json:"targetState,omitempty"`  // off (default) | up | offD
+	TargetRegion bool     `json:"targetRegion,omitempty"` // the target still holds a region peer
+	Ops          []string `json:"ops,omitempty"`          // 1-2 of check, remove, removeD, up, weight, labels
+	Hb           string   `json:"hb,omitempty"`           // "", persist, nopersist
+	Order        []int    `json:"order,omitempty"`        // queue order: permutation of the participants (ops..., hb last index)
 }
+
+var raceOps = []string{"check", "check", "check", "remove", "removeD", "removeD", "up", "up", "weight", "labels"}
 
 func genRace(t *rapid.T) RaceCase {
 	var c RaceCase
@@ -43,6 +64,33 @@ func genRace(t *rapid.T) RaceCase {
 			c.StayUp = append(c.StayUp, i)
 		}
 	}
+	if rapid.IntRange(0, 3).Draw(t, "mode") == 0 {
+		return c // park
+	}
+	c.Mode = "lock"
+	c.TargetState = rapid.SampledFrom([]string{"off", "off", "off", "up", "up", "offD"}).Draw(t, "targetState")
+	c.TargetRegion = rapid.IntRange(0, 5).Draw(t, "targetRegion") == 0
+	n := rapid.IntRange(1, 2).Draw(t, "nOps")
+	for len(c.Ops) < n {
+		op := rapid.SampledFrom(raceOps).Draw(t, "op")
+		dup := false
+		for _, o := range c.Ops {
+			dup = dup || o == op
+		}
+		if !dup {
+			c.Ops = append(c.Ops, op)
+		}
+	}
+	c.Hb = rapid.SampledFrom([]string{"persist", "persist", "nopersist", "nopersist", ""}).Draw(t, "hb")
+	k := len(c.Ops)
+	if c.Hb != "" {
+		k++
+	}
+	idx := make([]int, k)
+	for i := range idx {
+		idx[i] = i
+	}
+	c.Order = rapid.Permutation(idx).Draw(t, "order")
 	return c
 }
 
@@ -61,7 +109,7 @@ func runRace(c RaceCase) (vkit.Info, error) {
 	if err != nil {
 		return info, fmt.Errorf("fixture: %v", err)
 	}
-	defer f.cancel()
+	defer func() { f.cancel() }()
 	rc := f.rc
 	m := &model{stores: map[uint64]*mstore{}, nextReg: 1, residue: map[uint64]bool{}, cached: map[uint64]int{}}
 	for i := 0; i < c.Stores; i++ {
@@ -73,15 +121,21 @@ func runRace(c RaceCase) (vkit.Info, error) {
 		_, r := m.expectPut(req, false, *f.opt.GetClusterVersion(), false)
 		m.stores[id] = r
 	}
+	target := uint64(c.Target + 1)
 	for i := 0; i < c.Stores; i++ {
 		id := uint64(i + 1)
-		if has(c.Regions, i) {
+		if has(c.Regions, i) || (id == target && c.TargetRegion) {
 			placeOne(f, m, id)
 		}
-		if has(c.StayUp, i) {
+		d := has(c.Destroyed, i)
+		if id == target {
+			if c.TargetState == "up" {
+				continue
+			}
+			d = c.TargetState == "offD"
+		} else if has(c.StayUp, i) {
 			continue
 		}
-		d := has(c.Destroyed, i)
 		if err := rc.RemoveStore(id, d); err != nil {
 			return info, fmt.Errorf("RemoveStore(%d,%v) of an up store failed: %v", id, d, err)
 		}
@@ -90,7 +144,9 @@ func runRace(c RaceCase) (vkit.Info, error) {
 	if err := f.compare(m, "before the race"); err != nil {
 		return info, err
 	}
-	target := uint64(c.Target + 1)
+	if c.Mode == "lock" {
+		return runLockRace(c, f, m, target, info)
+	}
 
 	parked, release := make(chan struct{}), make(chan struct{})
 	f.pending = &fault{mode: "park", parked: parked, release: release}
@@ -144,8 +200,197 @@ func runRace(c RaceCase) (vkit.Info, error) {
 	if err := f.compare(m, fmt.Sprintf("after store check || UpStore(%d) -> %v", target, errUp)); err != nil {
 		return info, err
 	}
+	info.Class("mode-park")
 	info.NonTrivial = true
 	return info, nil
+}
+
+// racer is one participant: the real call and its effect on the target in the model
+// (apply returns whether the operation must be refused in that state).
+type racer struct {
+	name  string
+	call  func() error
+	apply func(s *mstore) bool
+	err   error
+	panic string
+	done  chan struct{}
+}
+
+func runLockRace(c RaceCase, f *fixture, m *model, target uint64, info vkit.Info) (vkit.Info, error) {
+	rc := f.rc
+	empty := m.regionCount(target) == 0
+	hasCheck := false
+	var ops []*racer
+	for _, name := range c.Ops {
+		r := &racer{name: name}
+		switch name {
+		case "check":
+			hasCheck = true
+			r.call = func() error { rc.VerifCheckStores(); return nil }
+			r.apply = func(s *mstore) bool {
+				if s.state == stOffline && empty {
+					s.state = stTombstone
+				}
+				return false
+			}
+		case "remove", "removeD":
+			d := name == "removeD"
+			r.name = fmt.Sprintf("RemoveStore(%d,%v)", target, d)
+			r.call = func() error { return rc.RemoveStore(target, d) }
+			r.apply = func(s *mstore) bool {
+				switch {
+				case s.state == stOffline && s.destroyed == d:
+					return false
+				case s.state == stTombstone, s.destroyed:
+					return true
+				}
+				s.state, s.destroyed = stOffline, d
+				return false
+			}
+		case "up":
+			r.name = fmt.Sprintf("UpStore(%d)", target)
+			r.call = func() error { return rc.UpStore(target) }
+			r.apply = func(s *mstore) bool {
+				if s.state == stTombstone || s.destroyed {
+					return true
+				}
+				s.state = stUp
+				return false
+			}
+		case "weight":
+			r.name = fmt.Sprintf("SetStoreWeight(%d,3,7)", target)
+			r.call = func() error { return rc.SetStoreWeight(target, 3, 7) }
+			r.apply = func(s *mstore) bool { s.lw, s.rw, s.slw, s.srw = 3, 7, 3, 7; return false }
+		case "labels":
+			r.name = fmt.Sprintf("UpdateStoreLabels(%d,{zone=z9},force)", target)
+			r.call = func() error {
+				return rc.UpdateStoreLabels(target, []*metapb.StoreLabel{{Key: "zone", Value: "z9"}}, true)
+			}
+			r.apply = func(s *mstore) bool { s.labels = []Label{{"zone", "z9"}}; return false }
+		default:
+			return info, fmt.Errorf("harness: unknown racing op %q", name)
+		}
+		ops = append(ops, r)
+	}
+	all := append([]*racer(nil), ops...)
+	if c.Hb != "" {
+		if c.Hb == "nopersist" {
+			// persisted a moment ago: the next heartbeat does not write the record
+			f.bc.PutStore(rc.GetStore(target).Clone(core.SetLastPersistTime(time.Now())))
+		}
+		all = append(all, &racer{name: fmt.Sprintf("HandleStoreHeartbeat(%d,%s)", target, c.Hb), call: func() error {
+			return rc.HandleStoreHeartbeat(&pdpb.StoreStats{StoreId: target, Capacity: 100 << 30, Available: 60 << 30, UsedSize: 40 << 30})
+		}})
+	}
+	if len(c.Order) != len(all) {
+		return info, fmt.Errorf("harness: order %v does not match %d participants", c.Order, len(all))
+	}
+
+	// the cluster lock is held while the participants queue on it in the generated order
+	rc.Lock()
+	var queued []string
+	for _, k := range c.Order {
+		r := all[k%len(all)]
+		r.done = make(chan struct{})
+		queued = append(queued, r.name)
+		go func() {
+			defer close(r.done)
+			r.err, r.panic = guarded(r.call)
+		}()
+		time.Sleep(1500 * time.Microsecond) // shapes the schedule only
+	}
+	rc.Unlock()
+	for _, r := range all {
+		select {
+		case <-r.done:
+		case <-time.After(10 * time.Second):
+			info.Inconclusive = true
+			return info, nil
+		}
+	}
+	at := "queued on the cluster lock: " + strings.Join(queued, ", ")
+	var results []string
+	for _, r := range all {
+		if r.panic != "" {
+			return info, fmt.Errorf("%s: %s panicked: %s", at, r.name, r.panic)
+		}
+		results = append(results, fmt.Sprintf("%s -> %v", r.name, r.err))
+		if r.apply == nil && r.err != nil {
+			return info, fmt.Errorf("%s: %s of an existing store failed: %v", at, r.name, r.err)
+		}
+	}
+	at += "; results: " + strings.Join(results, ", ")
+
+	served := snapshot(rc)
+	got, ok := served[target]
+	if !ok {
+		return info, fmt.Errorf("%s: store %d vanished", at, target)
+	}
+	// serial orders of the lifecycle operations (the heartbeat changes nothing the model tracks)
+	var explained *mstore
+	var outcomes []string
+	permute(len(ops), func(p []int) {
+		s := m.stores[target].clone()
+		okp := true
+		var desc []string
+		for _, k := range p {
+			refused := ops[k].apply(s)
+			desc = append(desc, ops[k].name)
+			if refused != (ops[k].err != nil) {
+				okp = false
+			}
+		}
+		outcomes = append(outcomes, fmt.Sprintf("[%s] => {%s}", strings.Join(desc, "; "), s))
+		if okp && explained == nil && s.String() == got.String() {
+			explained = s
+		}
+	})
+	if explained == nil {
+		sort.Strings(outcomes)
+		return info, fmt.Errorf("%s: store %d is served as {%s}; no serial order of the completed operations gives that with these results: %s",
+			at, target, got, strings.Join(outcomes, " | "))
+	}
+	m.stores[target] = explained
+	if hasCheck {
+		for _, id := range m.ids() {
+			s := m.stores[id]
+			if id != target && s.state == stOffline && m.regionCount(id) == 0 {
+				s.state = stTombstone
+			}
+		}
+	}
+	if err := f.compare(m, at); err != nil {
+		return info, err
+	}
+	info.Class("mode-lock")
+	for _, o := range c.Ops {
+		info.Class("racer-" + o)
+	}
+	info.ClassIf(c.Hb != "", "racer-heartbeat-"+c.Hb)
+	info.Class("final-" + stName[explained.state])
+	info.NonTrivial = true
+	return info, nil
+}
+
+// permute calls fn with every permutation of 0..n-1.
+func permute(n int, fn func([]int)) {
+	p := make([]int, n)
+	for i := range p {
+		p[i] = i
+	}
+	var rec func(k int)
+	rec = func(k int) {
+		if k == n {
+			fn(p)
+			return
+		}
+		for i := k; i < n; i++ {
+			p[k], p[i] = p[i], p[k]
+			rec(k + 1)
+			p[k], p[i] = p[i], p[k]
+		}
+	}
+	rec(0)
 }
 
 func placeOne(f *fixture, m *model, store uint64) {
